@@ -79,15 +79,16 @@ Theorem C09_nothing_outside : forall cfg s p o e,
   e = (p, o, true) /\ exists f t, pget p (active s) = Some (f, t) /\ f < o <= t.
 Proof. exact rec_step_emits. Qed.
 
-(* SOUNDNESS OF THE DECISION PROCEDURE spec_c09 FOR THE MODEL - partial: clauses 4 (nothing recovered between a
-   revocation / stop and the next assignment) and 5 (owned set follows assignment and revocation) never fail on the
-   model's own observations, for every configuration and op list.  Not proved sound (only exercised): clause 1 (the
-   closed form expected_active against RefreshAssignments - the model-level statement is C09_refresh_exact), clauses 2/3
-   (hand-off and progress coverage through cover_fails - model-level statement C09_handoff_partial). *)
+(* SOUNDNESS OF THE DECISION PROCEDURE spec_c09 FOR THE MODEL - partial: clauses 1 (refresh exactness: the spec's closed
+   form expected_active / re-assignment iff partitions or a to changed, decided after every Refresh, Revoke and
+   single-record completion), 4 (nothing recovered between a revocation / stop and the next assignment) and 5 (owned set
+   follows assignment and revocation) never fail on the model's own observations, for every configuration and op list.
+   Not proved sound (only exercised): clauses 2/3 (hand-off and progress coverage through cover_fails under the watched
+   guard - the model-level statement is C09_handoff_partial). *)
 Theorem C09_spec_sound_partial : forall cfg ops,
   let l := model_l cfg init_state ops in
-  c09_revoked ops l false = [] /\ scan c09_owned ops obs0 l = [].
-Proof. exact spec_c09_clauses_45_sound. Qed.
+  scan c09_refresh ops obs0 l = [] /\ c09_revoked ops l false = [] /\ scan c09_owned ops obs0 l = [].
+Proof. exact spec_c09_clauses_145_sound. Qed.
 
 Print Assumptions C09_refresh_exact.
 Print Assumptions C09_spec_sound_partial.
